@@ -24,7 +24,7 @@ fn show_entry(e: &XEntry) -> String {
     }
 }
 
-fn rle(items: Vec<String>) -> String {
+fn rle(items: &[&XEntry]) -> String {
     let mut out: Vec<String> = vec![];
     let mut i = 0;
     while i < items.len() {
@@ -34,9 +34,9 @@ fn rle(items: Vec<String>) -> String {
         }
         let n = j - i + 1;
         if n > 1 {
-            out.push(format!("{}*{}", items[i], n));
+            out.push(format!("{}*{}", show_entry(items[i]), n));
         } else {
-            out.push(items[i].clone());
+            out.push(show_entry(items[i]));
         }
         i = j + 1;
     }
@@ -143,9 +143,9 @@ fn facts(bytes: &[u8]) -> String {
         if *n != k as u64 {
             contig = false;
         }
-        items.push(show_entry(e));
+        items.push(e);
     }
-    f.push(format!("ents={}", rle(items)));
+    f.push(format!("ents={}", rle(&items)));
     f.push(format!("contig={}", if contig { 1 } else { 0 }));
     f.push(format!(
         "size={}",
